@@ -276,6 +276,26 @@ def s_char_from_u8(ex, st, fr, text, args):
     return S(32, args[0].v)
 
 
+def s_str_strip_prefix_char(ex, st, fr, text, args):
+    """str::strip_prefix(c: char): Some(rest) when the string starts with c"""
+    v, c = args
+    if isinstance(v, Ref):
+        v = ex.deref(st, v)
+    if isinstance(v, Native) and v.tag == 'str':
+        t_ = str_lit(v.p[0])
+        if not c.conc():
+            raise Inconclusive('strip_prefix with a symbolic character on a constant')
+        return E('Some', (Native('str', (t_[1:],)),)) if t_[:1] == chr(c.v) else E('None')
+    if not (isinstance(v, Native) and v.tag == 'symstr'):
+        raise Inconclusive('strip_prefix on %r' % (v,))
+    base = v.p[0] if v.p else 0
+    chars, ln = st.aux['input']
+    if base >= len(chars):
+        return E('None')
+    hit = z3.And(zi(ln) > base, zi(chars[base]) == zi(c))
+    return Fork([(hit, lambda s2: E('Some', (Native('symstr', (base + 1,)),))), (z3.Not(hit), lambda s2: E('None'))])
+
+
 def s_str_index(ex, st, fr, text, args):
     """<str as Index<Range<usize>>>::index on the symbolic input string: panics unless start <= end and both
     are char boundaries of the string (byte offsets of c0.. relative to the symbolic start location)"""
@@ -337,6 +357,7 @@ HARNESS_SUMMARIES = [
     (re.compile(r'^<str as (std::ops::)?Index<(std::ops::)?RangeFrom<usize>>>::index$'), s_str_index_from),
     (re.compile(r'^core::str::<impl str>::get::<(std::ops::)?RangeFrom<usize>>$'), s_str_get_from),
     (re.compile(r'^core::str::<impl str>::len$'), s_str_len),
+    (re.compile(r'^core::str::<impl str>::strip_prefix::<char>$'), s_str_strip_prefix_char),
     (re.compile(r'^core::str::<impl str>::as_bytes$'), s_str_as_bytes),
     (re.compile(r'^core::slice::<impl \[u8\]>::get::<usize>$'), s_bytes_get),
     (re.compile(r'^<char as (std::convert::)?From<u8>>::from$'), s_char_from_u8),
@@ -417,6 +438,7 @@ class StepHarness:
         self.tab_class = self.part.class_of(9)
         self.stats = {'paths': 0, 'ref_outcomes': 0, 'queries': 0, 'covers': {}}
         self.entry = None
+        self.ctor_anomalies = []
         self._loc_cache = {}
         self.max_mismatches = 40
         self.width_table = None      # set by the driver: [(lo, hi, width)] of unicode-width answers != Some(1)
@@ -528,7 +550,23 @@ class StepHarness:
             ust = A((Native('script', ()), S(64, 0), S(32, err), S(32, 0x5e71)))
         if self.d.str_input:
             st.root()['instr'] = Native('symstr', ())
-            st, lx = self.one(ex.call_fn(st, self.fn(self.L + '_', 'new_with_state'), [Ref(0, 'instr'), ust]), 'constructor')
+            paths = [(s_, v_) for k_, s_, v_ in ex.call_fn(st, self.fn(self.L + '_', 'new_with_state'), [Ref(0, 'instr'), ust]) if k_ == 'return']
+            plain = []
+            for s_, v_ in paths:
+                try:
+                    it_ = v_.f[0].f[self.F['__iter']]
+                    untouched = isinstance(it_, A) and isinstance(it_.f[0], Native) and it_.f[0].tag == 'input' and it_.f[0].p[0] == 0
+                except Exception:
+                    untouched = False
+                if untouched:
+                    plain.append((s_, v_))
+                elif symbolic:
+                    # the constructor itself consumed / skipped characters on this path: the stream no longer starts at
+                    # the first character of the input (kept for run_step, which reports it)
+                    self.ctor_anomalies.append(s_)
+            if len(plain) != 1:
+                raise Inconclusive('constructor: expected a single path that leaves the input untouched, got %d of %d' % (len(plain), len(paths)))
+            st, lx = plain[0]
             if symbolic:
                 st.aux['str_bounds'] = [(self.loc_at(k)[2], self.len >= k) for k in range(self.N + 1)]
             else:
@@ -571,15 +609,23 @@ class StepHarness:
         self.setup_symbolic()
         ent = self.entries()
         ex = self.ex
+        self.ctor_anomalies = []
         st0 = self.make_start(rho, prepeek, done)
         starts = [st0]
+        early = []
+        if rho == 0 and not prepeek and not done:
+            for s_ in self.ctor_anomalies[:2]:
+                m_ = self.best_model(s_.pc)
+                if m_ is not None:
+                    early.append(Mismatch(['dropped', 'loc', 'ctor'], 'the &str constructor consumes or skips characters of the input before the first call '
+                                          '(byte indices and the character stream no longer refer to the input as given)', m_, {'expected': 'stream starts at the first character'}, post=True))
         if prepeek:
             starts = []
             for kind, s2, v in ex.call_fn(st0, self.fn(self.L + '_', 'peek'), [Ref(0, 'lx')]):
                 if kind != 'return':
                     return [Mismatch(['panic'], 'peek() panics: %s' % v, ex.model(s2.pc))]
                 starts.append(s2)
-        out = []
+        out = list(early)
         ref0 = RefState(0, rho, 0, done)
         for s in starts:
             s.events = []
